@@ -77,6 +77,11 @@ def oracle_steps(ctx, o):
         ctx.violation("S5", "1-D range over a dimensioned quantity differs from the same range over plain floats", sig("steps_dim"), inp)
     if n >= 1:
         vals = [H(x) for x in fwd]
+        # value(0) = start*d/d and value(n-1) = end*d/d: two roundings each, relative to the endpoint ITSELF (so that the small endpoint of a
+        # range spanning many decades is checked too)
+        if not close(vals[0], S, 2 * ULP, abs(S)) or (n >= 2 and not close(vals[-1], E, 2 * ULP, abs(E))):
+            ctx.violation("S5", f"1-D range endpoints: first = {f64_of_hex(fwd[0])!r} (start {f64_of_hex(s)!r}), last = {f64_of_hex(fwd[-1])!r} (end {f64_of_hex(e)!r}): more than 2 ulp of the endpoint itself",
+                          sig("steps_endpoint_relative"), inp)
         if not close(vals[0], S, 4 * ULP, scale):
             ctx.violation("S5", f"1-D range does not start at the first endpoint: {f64_of_hex(fwd[0])!r} vs {f64_of_hex(s)!r}", sig("steps_first"), inp)
         if n >= 2:
@@ -272,6 +277,11 @@ def oracle_space(ctx, o):
         if (na, nd) != (ns, ni) or not (close(ca - cd, cs, TOL_CONV, scale) and close(ca + cd, ci, TOL_CONV, scale)):
             ctx.violation("S5", f"{name}: the grid centre or the point counts are not preserved between frequency and sum/difference axes", sig("space_sd_centre"),
                           {"conversion": name, "frequency": fs, "sumdiff": sd})
+    # the constructor keeps its arguments: first tuple = first (signal) axis, second tuple = second (idler) axis
+    for raw, key, cname in (("ws_raw", "ws", "WavelengthSpace::new"), ("fs_raw", "fs", "FrequencySpace::new"), ("sd_raw", "sd", "SumDiffFrequencySpace::new")):
+        if raw in o and o[raw] != o[key]:
+            ctx.violation("S5", f"{cname}({o[raw][0]}, {o[raw][1]}) reads back through as_steps() as {o[key]}: the axes are not the constructor's arguments in order",
+                          {"kind": "space_constructor", "which": cname}, {"call": cname, "arguments": o[raw], "as_steps": o[key]})
     if o["from"] == "wavelength":
         # the From impls must be the named conversions, bit for bit
         for key, ref, what in (("fs_from_ws", o["fs"], "FrequencySpace::from(WavelengthSpace)"), ("fs_from_sd", o["fs2"], "FrequencySpace::from(SumDiffFrequencySpace)"),
@@ -492,6 +502,8 @@ def oracle_inner(ctx, obs):
     table = range_table()
     if not any(o["kind"] == "range_all" for o in obs) and any(o["kind"] == "range" for o in obs):
         ctx.proof_failures.append(("harness", "range_all", "no observation of the full range-function table was produced"))
+    if any(o["kind"] == "range_all" for o in obs) and not any(o["kind"] == "range_all" and o["nx"] * o["ny"] <= max(o["nx"], o["ny"]) for o in obs):
+        ctx.note("no degenerate (0 or 1 point per axis) grid among the range-function cases of this run")
     for o in obs:
         k = o["kind"]
         if k == "harness_crash":
@@ -686,6 +698,22 @@ def selftest(ctx, obs):
     return n_expected, len(probe.violations)
 
 
+def require_complete(ctx, obs, mode, minimum):
+    """a harness run that crashed, timed out or produced too little must not leave its clauses silently unchecked"""
+    counts = {}
+    for o in obs:
+        counts[o.get("kind")] = counts.get(o.get("kind"), 0) + 1
+    missing = {k: (counts.get(k, 0), m) for k, m in minimum.items() if counts.get(k, 0) + (counts.get("case_panic", 0) if k in ("steps", "steps2d", "space", "range", "range_all") else 0) < m}
+    done = any(o.get("kind") == "done" and o.get("mode") == mode for o in obs)
+    if missing or not done:
+        ctx.violation("S5", f"harness mode `{mode}` did not deliver its observations (" + ("no completion marker; " if not done else "") +
+                            ", ".join(f"{k}: {a} of at least {m}" for k, (a, m) in missing.items()) + "): the clauses it feeds are unchecked",
+                      {"kind": "harness_incomplete", "mode": mode}, {"counts": counts, "required": minimum, "done_marker": done,
+                                                                      "crash": next((o for o in obs if o.get("kind") == "harness_crash"), None)}, found_input=False)
+        return False
+    return True
+
+
 def replay_setup(ctx):
     """--replay <file>: re-run the generated stream the replay came from (same seed and tier) and keep only that finding"""
     if not getattr(ctx, "replay", None):
@@ -723,10 +751,13 @@ def run(ctx):
         ctx.note("Findings/C14_transpose.v (historical record of the fixed finding F6) did not build")
     n = 1 if quick else 6
     obs = run_harness(ctx, binp, ["c14", ctx.seed, n, "grid"])
+    require_complete(ctx, obs, "grid", {"steps": 64 * n, "steps2d": 20 * n, "space": 30 * n, "idx": 12, "transpose": 144, "transpose_ragged": 70, "array_iter": 10, "steps_overflow": 1})
     if not quick:
         # a second, independent stream (only the randomised observation kinds add information)
         obs += [o for o in run_harness(ctx, binp, ["c14", ctx.seed + 7919, n, "grid"]) if o["kind"] in ("steps", "steps2d", "space", "transpose_f")]
-    obs += run_harness(ctx, binp, ["c14", ctx.seed, 2 if quick else 12, "range"], timeout=900)
+    robs = run_harness(ctx, binp, ["c14", ctx.seed, 2 if quick else 12, "range"], timeout=900)
+    require_complete(ctx, robs, "range", {"range": 6 if quick else 36, "range_all": 3 if quick else 12})
+    obs += robs
     if not quick:
         # debug profile (overflow checks on, as `cargo test` builds): usize arithmetic of divisions(), index maps, transpose must not trip on any generated case
         try:
@@ -784,5 +815,6 @@ def run(ctx):
                                   "every shape up to 12x12 observed and compared with the model",
     }
     replay_filter(ctx, want)
-    return finish(ctx, assumptions=["binary64 rounding of the grid formulas is measured (<= 4.5 ulp of the axis scale; exact on dyadic inputs), not proved",
+    return finish(ctx, assumptions=["binary64 rounding of Steps::value is PROVED <= 4u of the range scale for FLX-53 and, under the stated no-underflow guard, for binary64 (C14_steps_value_float_partial); "
+                                    "it is assumed that no intermediate overflows; the 2-D lerp form and the conversions are measured (<= 4.5 ulp / 1e-12), not proved",
                                     "JointSpectrum point evaluation is a black box here: only the order/identity of the points handed to it is covered"])
